@@ -374,6 +374,7 @@ func (vm *Thread) CallBytecodeClosure(closure *BytecodeClosure, args ...value.Va
 	for _, arg := range args {
 		vm.push(arg)
 	}
+	vm.growValueStackIfNeeded()
 	vm.run()
 	if vm.state == errorState {
 		vm.restoreLastFrame()
@@ -1666,12 +1667,14 @@ func (vm *Thread) stackAddRaw(ptr uintptr, n uintptr) uintptr {
 	return ptr + n*value.ValueSize
 }
 
+// Number of stack slots between `from` and `to` (positive when `to` lies above `from`).
 func (vm *Thread) stackOffsetFromTo(from *value.Value, to *value.Value) int {
-	return int(uintptr(unsafe.Pointer(from))-uintptr(unsafe.Pointer(to))) / int(value.ValueSize)
+	return int(uintptr(unsafe.Pointer(to))-uintptr(unsafe.Pointer(from))) / int(value.ValueSize)
 }
 
+// Number of stack slots between `from` and `to` (positive when `to` lies above `from`).
 func (vm *Thread) stackOffsetFromToRaw(from, to uintptr) int {
-	return int(from-to) / int(value.ValueSize)
+	return int(to-from) / int(value.ValueSize)
 }
 
 func (vm *Thread) fpOffset() int {
@@ -2158,6 +2161,7 @@ func (vm *Thread) callBytecodeClosure(closure *BytecodeClosure, callInfo *CallSi
 	vm.fp = vm.spSubtractRaw(uintptr(function.parameterCount) + 1)
 	vm.ipSet(&function.Instructions[0])
 	vm.upvalues = closure.Upvalues
+	vm.growValueStackIfNeeded()
 
 	return value.Undefined
 }
@@ -2265,7 +2269,11 @@ func (vm *Thread) callBytecodeFunction(method *BytecodeFunction, argCount int) {
 	vm.bytecode = method
 	vm.fp = vm.spSubtractRaw(uintptr(method.parameterCount + 1))
 	vm.ipSet(&method.Instructions[0])
+	vm.growValueStackIfNeeded()
+}
 
+// Reallocate the value stack when it is almost full.
+func (vm *Thread) growValueStackIfNeeded() {
 	if float64(vm.spOffset()) > 0.7*float64(len(vm.stack)) {
 		vm.growValueStack()
 	}
@@ -2284,25 +2292,21 @@ func (vm *Thread) growValueStack() {
 	fpOffset := uintptr(vm.fpOffset())
 	spOffset := uintptr(vm.spOffset())
 
-	for i := range vm.callFrames {
-		cf := &vm.callFrames[i]
-		offset := uintptr(vm.stackOffsetFromToRaw(oldStackPtr, cf.fp))
-		cf.fp = vm.stackAddRaw(newStackPtr, offset)
-		for _, upvalue := range cf.upvalues {
-			if upvalue.IsClosed() {
-				continue
-			}
-
-			offset := vm.stackOffsetFromTo(&vm.stack[0], upvalue.slot)
-			upvalue.slot = vm.stackAdd(&newStack[0], offset)
-		}
-	}
-
-	for _, upvalue := range vm.upvalues {
-		if upvalue.IsClosed() {
+	// rebase the frame pointers saved in the live call frames
+	callStack := vm.callStack()
+	for i := range callStack {
+		cf := &callStack[i]
+		if cf.isNative {
+			// native frames keep the function name in `fp`
 			continue
 		}
+		offset := uintptr(vm.stackOffsetFromToRaw(oldStackPtr, cf.fp))
+		cf.fp = vm.stackAddRaw(newStackPtr, offset)
+	}
 
+	// Every open upvalue that points to this stack
+	// is on the list of open upvalues exactly once.
+	for upvalue := vm.openUpvalueHead; upvalue != nil; upvalue = upvalue.next {
 		offset := vm.stackOffsetFromTo(&vm.stack[0], upvalue.slot)
 		upvalue.slot = vm.stackAdd(&newStack[0], offset)
 	}
